@@ -33,14 +33,12 @@ def gen_hard(rng, seq):
                 cs.append(("AvoidChanges", kw(location=None, max_edits_percent=rng.choice([1, 10, 34, 50]))))
             elif r2 < 0.2:
                 cs.append(("AvoidChanges", kw(location=rloc(rng, n, strands=(0, 1), minlen=3), max_edits_percent=rng.choice([1, 10, 34, 50]))))
-            elif r2 < 0.7:
+            elif r2 < 0.55:
                 cs.append(("AvoidChanges", kw(location=rloc(rng, n, strands=(0, 1, -1)))))
             else:
                 ix = sorted(rng.sample(range(n), rng.randint(1, min(4, n))))
-                if rng.random() < 0.4 and len(ix) > 2:
-                    rest = ix[1:]
-                    rng.shuffle(rest)
-                    ix = [ix[0]] + rest
+                if rng.random() < 0.6 and len(ix) > 1:
+                    rng.shuffle(ix)          # any order: the covering span is (min, max + 1)
                 cs.append(("AvoidChanges", kw(indices=tuple(ix))))
         elif r < 0.5:
             loc = rloc(rng, n, strands=(1, -1), mult=3, minlen=3)
